@@ -190,6 +190,7 @@ C02Scen(v, strict, b, enc, dform, timing, nat, other, sackx) ==
                  @@ (IF dform \in {"du_port", "du_host", "du_admin"} THEN enc ELSE [qttl |-> 0, ipopt |-> enc.ipopt])
         \* behaviour of the OTHER replies: all present / one lost / one duplicated / reordered (lower TTLs slower)
         hop(t) == CASE other = "loss" /\ t = 2 -> <<>>
+                    [] other = "slowhop" /\ t = 3 -> <<[te(t) EXCEPT !.delay_us = 230000]>>
                     [] other = "dup" /\ t = 2 -> <<te(t) @@ [dup |-> 1, dup_us |-> 150000]>>
                     [] other = "reorder" /\ timing = "early" -> <<[te(t) EXCEPT !.delay_us = 90000 - 20000 * t]>>
                     [] OTHER -> <<te(t)>>
@@ -199,14 +200,14 @@ C02Scen(v, strict, b, enc, dform, timing, nat, other, sackx) ==
                \o (IF nat THEN "/nat" ELSE "") \o "/" \o other \o "/" \o ToString(Len(sackx[1])) \o (IF sackx[2] THEN "d" ELSE "a"),
         label |-> v \o "/" \o (IF strict THEN "strict" ELSE "relaxed") \o "/" \o enc.quote \o "/opt" \o ToString(enc.ipopt) \o "/" \o dform \o "/" \o timing
                   \o (IF nat THEN "/nat" ELSE "") \o "/" \o other,
-        eager |-> (timing = "eager"),
-        path |-> PathOf([t \in mn..mx |-> IF t >= dt THEN <<dst(t)>> ELSE hop(t)])]
+        eager |-> (timing = "eager"), drain |-> TRUE,
+        path |-> PathOf([t \in mn..mx |-> IF t >= dt THEN <<IF other = "destswap" /\ timing = "early" THEN [dst(t) EXCEPT !.delay_us = 90000 - 15000 * t] ELSE dst(t)>> ELSE hop(t)])]
 
 SackExtras == <<<<<<>>, FALSE>>, <<<<5>>, FALSE>>, <<<<5>>, TRUE>>>>
 DestFormSeq(v) == SetToSeq(DestForms(v))
 \* the parameter space of the catalogue; dependent choices are made by index so that the space is a plain product
 C02Params == [v : Variants, s : BOOLEAN, b : Bases, enc : Encs, dfi : 1..3, tm : {"early", "late", "eager"},
-              ot : {"all", "loss", "dup", "reorder"}, sxi : 1..3, nat : BOOLEAN]
+              ot : {"all", "loss", "dup", "reorder", "slowhop", "destswap"}, sxi : 1..3, nat : BOOLEAN]
 C02Of(p) ==
     LET v == p.v
         s == IF HasStrict(v) THEN p.s ELSE TRUE
@@ -220,6 +221,8 @@ C02Core == { [v |-> v, s |-> s, b |-> BaseMid, enc |-> EncPlain, dfi |-> i, tm |
                v \in Variants, s \in BOOLEAN, i \in 1..3, tm \in {"early", "late", "eager"}, x \in 1..3, n \in BOOLEAN }
            \cup { [v |-> "sack", s |-> s, b |-> b, enc |-> EncPlain, dfi |-> 1, tm |-> tm, ot |-> "all", sxi |-> x, nat |-> FALSE] :
                     s \in BOOLEAN, b \in Bases, tm \in {"early", "eager"}, x \in 1..3 }
+           \cup { [v |-> v, s |-> TRUE, b |-> BaseMid, enc |-> EncPlain, dfi |-> i, tm |-> "early", ot |-> ot, sxi |-> 1, nat |-> FALSE] :
+                    v \in Variants, i \in 1..3, ot \in {"slowhop", "destswap"} }
 C02All(u) == { C02Of(p) : p \in C02Core \cup RandomSubset(u, C02Params) }
 
 ---------------------------------------------------------------------------
